@@ -171,6 +171,9 @@ def simp(e):
     return e
 
 
+VAL_TRUTHY = [None]
+
+
 def truthy(v):
     """python truthiness as a python bool or z3 Bool"""
     if isinstance(v, bool):
@@ -183,6 +186,8 @@ def truthy(v):
         return len(v) > 0
     if isinstance(v, XReal):
         return z3.Or(v.pinf, v.ninf, v.val != 0)
+    if isinstance(v, ArrayVal) and getattr(v, 'is_list', False):
+        return bnot(s_eq(v.shape[0], 0))          # a python list (modelled as an immutable array): non-empty
     if isinstance(v, (ArrayVal, NDRef)):
         raise Unsupported('truth value of an array')
     if isinstance(v, SeqVal):
@@ -195,6 +200,8 @@ def truthy(v):
         if v.truthy_when_some is None:
             raise Unsupported('truthiness of optional %s' % v)
         return z3.And(z3.Not(v.is_none), v.truthy_when_some)
+    if is_z3(v) and VAL_TRUTHY[0] is not None and v.sort() == Val:
+        return VAL_TRUTHY[0]        # opaque objects of this contract are declared truthy (ghost 'truthy_val')
     if is_z3(v):
         k = z3_kind(v)
         if k == 'bool':
